@@ -29,6 +29,8 @@ type SpecEnv struct {
 	pkg     string
 	inOld   bool
 	uses    map[string]bool // spec functions used
+	fuel    int
+	fuelSet bool
 }
 
 func (env *SpecEnv) clone() *SpecEnv {
@@ -53,6 +55,16 @@ func (env *SpecEnv) lookup(name string) (specVal, bool) {
 	fr := env.fr
 	if fr == nil {
 		return specVal{}, false
+	}
+	if env.inOld {
+		// inside old(...): a parameter name denotes its value on entry
+		for _, p := range fr.fn.Params {
+			if p.Name() == name {
+				if v, ok := fr.vals[p]; ok {
+					return specVal{v, p.Type()}, true
+				}
+			}
+		}
 	}
 	if v, ok := fr.nameOver[name]; ok {
 		return specVal{v, mathInt}, true
@@ -562,6 +574,19 @@ func (env *SpecEnv) evalCall(n ECall) specVal {
 		sfail("cap of %T", x.v)
 	case "seq":
 		return specVal{env.toSeq(env.eval(n.Args[0])), nil}
+	case "lens":
+		// lens(v): the sequence of the lengths of the elements of a slice of slices
+		x := env.eval(n.Args[0])
+		s, ok := x.v.(VSlice)
+		if !ok {
+			sfail("lens of %T", x.v)
+		}
+		et := under(x.t).(*types.Slice).Elem()
+		if _, isSl := under(et).(*types.Slice); !isSl {
+			sfail("lens needs a slice of slices")
+		}
+		h := env.curHeapGet(heapName(et, ".len"), arrOf(SArr))
+		return specVal{VSeq{Select(h, s.Arr), s.Off, s.Len}, nil}
 	case "fresh":
 		x := env.eval(n.Args[0])
 		var ref Term
@@ -619,6 +644,14 @@ func (env *SpecEnv) evalCall(n ECall) specVal {
 			}
 		}
 		return specVal{acc, mathInt}
+	case "ifaceval":
+		// ifaceval(i): the value boxed in interface i (for single-word boxed values)
+		x := env.eval(n.Args[0])
+		iv, ok := x.v.(VIface)
+		if !ok {
+			sfail("ifaceval of %T", x.v)
+		}
+		return specVal{iv.Val, mathInt}
 	case "isnil":
 		return specVal{env.equal(env.eval(n.Args[0]), specVal{nilVal{}, nil}), boolT}
 	case "closed":
@@ -689,6 +722,14 @@ func (env *SpecEnv) evalCall(n ECall) specVal {
 		if sf.Ret == "bool" {
 			sort = SBool
 			t = boolT
+		}
+		if sf.Rec && sf.Body != nil {
+			// recursive spec functions carry a fuel argument (bounded unfolding, Dafny style)
+			fuel := 2
+			if env.fuelSet {
+				fuel = env.fuel
+			}
+			args = append([]Term{IntLit(int64(fuel))}, args...)
 		}
 		return specVal{app(sort, specSym(sf), args...), t}
 	}
@@ -768,17 +809,41 @@ func (e *Engine) specPrelude(formula string) string {
 			decls = append(decls, fmt.Sprintf("(declare-fun %s (%s) %s)", specSym(sf), strings.Join(sorts, " "), ret))
 			continue
 		}
-		var body Term
-		if ret == "Bool" {
-			body = env.Bool(sf.Body)
-		} else {
-			body = env.Int(sf.Body)
+		evalBody := func() Term {
+			if ret == "Bool" {
+				return env.Bool(sf.Body)
+			}
+			return env.Int(sf.Body)
 		}
-		kw := "define-fun"
 		if sf.Rec {
-			kw = "define-fun-rec"
+			// f(fuel, args): f(2,x) = body[f(1,.)], f(1,x) = body[f(0,.)], all fuels agree
+			var sorts, names []string
+			for _, p := range ps {
+				for _, q := range splitTop(p) {
+					f := splitTop(q[1 : len(q)-1])
+					names = append(names, f[0])
+					sorts = append(sorts, f[1])
+				}
+			}
+			sym := specSym(sf)
+			decl := fmt.Sprintf("(declare-fun %s (Int %s) %s)", sym, strings.Join(sorts, " "), ret)
+			bind := strings.Join(ps, " ")
+			argl := strings.Join(names, " ")
+			var axs []string
+			for fuel := 2; fuel >= 1; fuel-- {
+				env.fuelSet, env.fuel = true, fuel-1
+				body := evalBody()
+				axs = append(axs, fmt.Sprintf("(assert (forall (%s) (! (= (%s %d %s) %s) :pattern ((%s %d %s)))))", bind, sym, fuel, argl, body.S, sym, fuel, argl))
+				axs = append(axs, fmt.Sprintf("(assert (forall (%s) (! (= (%s %d %s) (%s %d %s)) :pattern ((%s %d %s)))))", bind, sym, fuel, argl, sym, fuel-1, argl, sym, fuel, argl))
+			}
+			env.fuelSet = false
+			// a single "definition" line so that the dependency filter keeps it together
+			defs = append(defs, fmt.Sprintf("(declare-fun %s (Int %s) %s)\n%s", sym, strings.Join(sorts, " "), ret, strings.Join(axs, "\n")))
+			_ = decl
+			continue
 		}
-		defs = append(defs, fmt.Sprintf("(%s %s (%s) %s %s)", kw, specSym(sf), strings.Join(ps, " "), ret, body.S))
+		body := evalBody()
+		defs = append(defs, fmt.Sprintf("(define-fun %s (%s) %s %s)", specSym(sf), strings.Join(ps, " "), ret, body.S))
 	}
 	// keep only the definitions the formula uses (transitively): unrelated quantified axioms and
 	// recursive definitions make satisfiable queries come back "unknown"
